@@ -160,6 +160,42 @@ func memoSequential(r *rng, g *storeGen, n int, hist map[string]int) {
 					cp := *rc.lo
 					lo = &cp
 				}
+				// … or the same look-up with a sibling argument: a predicate with the same identifier and another
+				// anchor (or none): an answer must never be replayed for an argument that differs in any component
+				if len(recent) > 0 && r.chance(1, 5) {
+					rc := recent[r.intn(len(recent))]
+					if rc.p != nil {
+						var sib []*predicate.Predicate
+						for _, q := range preds {
+							if q.ID() == rc.p.ID() && q.String() != rc.p.String() {
+								sib = append(sib, q)
+							}
+						}
+						if len(sib) > 0 {
+							m, s, o = rc.m, rc.s, rc.o
+							p = sib[r.intn(len(sib))]
+							cp := *rc.lo
+							lo = &cp
+							hist["sibling-predicate"]++
+						}
+					} else if rc.o != nil {
+						if op, err := rc.o.Predicate(); err == nil {
+							var sib []*predicate.Predicate
+							for _, q := range preds {
+								if q.ID() == op.ID() && q.String() != op.String() {
+									sib = append(sib, q)
+								}
+							}
+							if len(sib) > 0 {
+								m, s, p = rc.m, rc.s, rc.p
+								o = triple.NewPredicateObject(sib[r.intn(len(sib))])
+								cp := *rc.lo
+								lo = &cp
+								hist["sibling-object"]++
+							}
+						}
+					}
+				}
 				recent = append(recent, recentRead{m, s, p, o, lo})
 				if len(recent) > 6 {
 					recent = recent[1:]
